@@ -1350,6 +1350,135 @@ def c18_entry(case):
         return _exc(e)
 
 
+# C18: the container as a mutable sequence (spec/ContainerSM.tla) - one event per call, with the lists before and after
+C18_SM_TRS = {1: "154n97w14", 2: "154n97w15", 3: "7s12e05"}
+
+
+def c18_sm(case):
+    import pytrs
+    a = case["args"]
+    trslist = a["container"] == "TRSList"
+    cls = pytrs.TRSList if trslist else pytrs.TractList
+    tracts = {k: pytrs.Tract("NE/4", trs=v) for k, v in C18_SM_TRS.items()}
+    ident = {id(t): k for k, t in tracts.items()}
+    byname = {v: k for k, v in C18_SM_TRS.items()}
+
+    def good(k, form):
+        if not trslist:
+            return tracts[k]
+        return {"trs": pytrs.TRS(C18_SM_TRS[k]), "str": C18_SM_TRS[k], "tract": tracts[k]}[form]
+
+    def bad(kind):
+        return {"trs": pytrs.TRS("154n97w14"), "str": "154n97w14", "int": 5, "none": None, "float": 2.5,
+                "list": [tracts[1]], "plss": pytrs.PLSSDesc("T154N-R97W Sec 14: NE/4")}[kind]
+
+    def ids(lst):
+        if lst is None:
+            return []
+        out = []
+        for e in lst:
+            if trslist:
+                out.append(byname.get(getattr(e, "trs", None), 99) if type(e) is pytrs.TRS else 98)
+            else:
+                out.append(ident.get(id(e), 99))
+        return out
+
+    def elem(k, op):
+        return bad(op.get("bad", "int")) if k == 0 else good(k, op.get("gform", "trs"))
+
+    def iterable(op):
+        items = [elem(k, op) for k in op["it"]]
+        form = op.get("form", "list")
+        if form == "tuple":
+            return tuple(items)
+        if form == "generator":
+            return (z_ for z_ in items)
+        if form == "container" and all(k != 0 for k in op["it"]):
+            return cls(items)
+        return items
+
+    X = Y = Z = None
+    events = []
+    for seq, op in enumerate(a["ops"]):
+        pre = {"x": ids(X), "y": ids(Y), "z": ids(Z), "hasY": Y is not None, "hasZ": Z is not None}
+        ev = {"id": "%s.%d" % (case["id"], seq), "op": {k: op[k] for k in ("name", "tgt", "i", "e", "it")}, "pre": pre,
+              "exc": "none", "ret": []}
+        n, tgt = op["name"], op["tgt"]
+        try:
+            if n == "new":
+                X = cls(iterable(op))
+            elif tgt == "y":
+                if Y is not None:
+                    if n == "append":
+                        Y.append(elem(op["e"], op))
+                    elif n == "reverse":
+                        Y.reverse()
+                    else:
+                        ev["ret"] = ids([Y.pop()])
+            elif tgt == "z":
+                if Z is not None:
+                    if n == "append":
+                        Z.append(pytrs.TRS(C18_SM_TRS[op["e"]]) if trslist else tracts[op["e"]])
+                    else:
+                        ev["ret"] = ids([Z.pop()])
+            elif n == "append":
+                X.append(elem(op["e"], op))
+            elif n == "extend":
+                X.extend(iterable(op))
+            elif n == "iadd":
+                X0 = X
+                X += iterable(op)
+                if X is not X0:
+                    raise AssertionError("+= returned another object")
+            elif n == "add":
+                Y = X + iterable(op)
+            elif n == "extend_str":
+                X.extend("154n97w14")
+            elif n == "extend_self":
+                X.extend(X)
+            elif n == "iadd_self":
+                X += X
+            elif n == "extend_y":
+                if Y is not None:
+                    X.extend(Y)
+            elif n == "imul":
+                X *= op["i"]
+            elif n == "mul":
+                Y = X * op["i"]
+            elif n == "insert":
+                X.insert(op["i"], elem(op["e"], op))
+            elif n == "setitem":
+                X[op["i"]] = elem(op["e"], op)
+            elif n == "pop":
+                ev["ret"] = ids([X.pop(op["i"]) if op["i"] != -1 or op.get("form") == "tuple" else X.pop()])
+            elif n == "reverse":
+                X.reverse()
+            elif n == "copy":
+                Y = X.copy()
+            elif n == "tolist":
+                Z = X.to_standard_list()
+            elif n == "slice":
+                Z = X[op["i"]:op["i"] + 2]
+                if not isinstance(Z, list):
+                    Z = list(Z)
+            elif n == "eq_y":
+                ev["ret"] = [1 if (Y is not None and X == Y) else 0]
+            elif n in ("filter_keep", "filter_drop"):
+                Y = X.filter(lambda e_: ids([e_]) == [1], drop=(n == "filter_drop"))
+            else:
+                raise ValueError(n)
+            if Y is not None and tgt == "x" and n in ("add", "mul", "copy", "filter_keep", "filter_drop") and type(Y) is not cls:
+                ev["ret"] = [97]
+        except Exception as e:  # noqa
+            ev["exc"] = type(e).__name__
+            ev["exc_msg"] = str(e)[:200]
+        ev["post"] = {"x": ids(X), "y": ids(Y), "z": ids(Z), "hasY": Y is not None, "hasZ": Z is not None}
+        events.append(ev)
+        if X is None:
+            break
+    return {"events": events}
+
+
 # ---------------------------------------------------------------------------
 # C19: bulk export
 
